@@ -437,8 +437,7 @@ def produce_lines_miri(group, seed, timeout=3000):
     return out_path, ""
 
 
-def run_driver(lines_path, timeout=3000, keep_dump=True):
-    """pipe a lines file through the extracted model. Returns (summary | None, error, model dump path)."""
+def _run_driver_one(lines_path, timeout, keep_dump):
     drv = os.path.join(OCAML_BUILD, "driver")
     env = env_base()
     dump = lines_path + ".model"
@@ -455,6 +454,74 @@ def run_driver(lines_path, timeout=3000, keep_dump=True):
         return json.loads(p.stdout.decode(errors="replace")), "", (dump if keep_dump else None)
     except Exception as ex:
         return None, "driver output unreadable: %s" % ex, None
+
+
+SHARD_BYTES = 6_000_000      # lines files larger than this are evaluated by several driver processes
+
+
+def run_driver(lines_path, timeout=3000, keep_dump=True):
+    """pipe a lines file through the extracted model. Returns (summary | None, error, model dump path).
+    Large files are split by a hash of (family, args) -- so that equal cases land in the same shard and
+    the per-shard 'distinct' counts add up -- and evaluated by parallel driver processes."""
+    size = os.path.getsize(lines_path)
+    k = min(8, 1 + size // SHARD_BYTES)
+    if k <= 1 or os.environ.get("KV_NO_SHARD") == "1":
+        return _run_driver_one(lines_path, timeout, keep_dump)
+    import zlib
+    paths = ["%s.s%d" % (lines_path, i) for i in range(k)]
+    outs = [open(q, "w", errors="replace") for q in paths]
+    with open(lines_path, errors="replace") as f:
+        for line in f:
+            parts = line.split("\t", 2)
+            key = "\t".join(parts[:2]).encode("utf-8", "replace")
+            outs[zlib.crc32(key) % k].write(line)
+    for o in outs:
+        o.close()
+    from concurrent.futures import ThreadPoolExecutor
+    with ThreadPoolExecutor(max_workers=k) as ex:
+        res = list(ex.map(lambda q: _run_driver_one(q, timeout, keep_dump), paths))
+    for q in paths:
+        try:
+            os.remove(q)
+        except OSError:
+            pass
+    merged = None
+    dump = lines_path + ".model"
+    err = ""
+    for summ, e, d in res:
+        if summ is None:
+            err = err or e
+            continue
+        if merged is None:
+            merged = {"total": 0, "families": {}, "n_mismatch_impl": 0, "n_mismatch_std": 0, "n_bad": 0,
+                      "mismatch_impl": [], "mismatch_std": [], "bad": [], "samples": []}
+        for key in ("total", "n_mismatch_impl", "n_mismatch_std", "n_bad"):
+            merged[key] += summ.get(key, 0)
+        for key in ("mismatch_impl", "mismatch_std", "bad", "samples"):
+            merged[key] += summ.get(key, [])
+        for fam, st in summ["families"].items():
+            m = merged["families"].setdefault(fam, {"lines": 0, "distinct": 0, "nontrivial": 0, "tags": {}})
+            for key in ("lines", "distinct", "nontrivial"):
+                m[key] += st[key]
+            for t, n in st["tags"].items():
+                m["tags"][t] = m["tags"].get(t, 0) + n
+    if keep_dump:
+        with open(dump, "w") as out:
+            for _s, _e, d in res:
+                if d and os.path.exists(d):
+                    with open(d, errors="replace") as f:
+                        shutil_copy(f, out)
+                    os.remove(d)
+    if err or merged is None:
+        return None, err or "driver produced nothing", None
+    # keep the lists at the size a single driver would have reported
+    merged["samples"] = merged["samples"][:200]
+    return merged, "", (dump if keep_dump else None)
+
+
+def shutil_copy(src, dst):
+    import shutil
+    shutil.copyfileobj(src, dst)
 
 
 def run_correspondence(group, tier, seed, release=False, timeout=3000):
